@@ -162,7 +162,7 @@ def case(kind: str, sh: dict, pid: str):
 
             # what the block holds *before* the library looks at it (the encoder must not
             # change the caller's data, and everything below is measured against this)
-            f1 = B.fields(I, kind, blk)
+            f1 = B.fields(I, kind, blk, values=True)
             snap_masks, snap_rows = [], []
             if pid == "C05" and kind in ("data3d", "emg", "force3d", "fpdata"):
                 for t_ in tracks_of(kind, blk):
@@ -225,7 +225,7 @@ def case(kind: str, sh: dict, pid: str):
             P("C02", "decode_consumes_exactly_nBytes", pos == declared, f"pos={pos} declared={declared}")
             P("C02", "decoded_nBytes_same", blk2.nBytes == declared)
 
-            f2 = B.fields(I, kind, blk2)
+            f2 = B.fields(I, kind, blk2, values=True)
             B.observe_fields(I, "decoded", f2)
             if pid == "C01":
                 B.compare_fields(I, lambda lab, c: P("C01", "field" + lab, c), "", f1, f2)
